@@ -1420,7 +1420,20 @@ fn race_sweep(ctx: &Ctx, sh: &Shared) {
                         (Some(p.clone()), p)
                     }
                 };
+                // every other pair runs after a fault: one store panics inside the cache while MemcStore holds
+                // the key's lock (a poisoned lock must still serialise the commands that follow)
+                let with_fault = pi % 2 == 0;
+                let top: Arc<dyn Cache + Send + Sync> = if with_fault { Arc::new(GateCache { inner: top }) } else { top };
                 let stack = Stack::with_top(timer.clone(), inner, pol, top);
+                if with_fault {
+                    let memc = stack.memc.clone();
+                    let _ = std::panic::catch_unwind(std::panic::AssertUnwindSafe(move || {
+                        let mut conn = Conn::new(memc, 1 << 20);
+                        gate::INJECT_PANIC_IN_SET.with(|f| f.set(true));
+                        let _ = conn.feed(&wire::store(op::SET, b"k0", b"boom", 0, 0, 1, 0).encode());
+                    }));
+                    gate::INJECT_PANIC_IN_SET.with(|f| f.set(false));
+                }
                 let go = Arc::new(AtomicU64::new(0));
                 let done = Arc::new(AtomicU64::new(0));
                 let ticket = Arc::new(AtomicU64::new(1));
@@ -1555,6 +1568,9 @@ fn race_sweep(ctx: &Ctx, sh: &Shared) {
                     let _ = h.join();
                 }
                 *local.entry("race_sweep:rounds_with_overlapping_commands".into()).or_insert(0) += overlapped;
+                if with_fault {
+                    *local.entry("race_sweep:pairs_run_after_an_injected_panic_under_the_key_lock".into()).or_insert(0) += 1;
+                }
                 if overlapped > 0 {
                     fps.push(fnv(format!("race-sweep:{:?}:{:?}:{}:{}", ra, rb, present, expired).as_bytes()));
                 }
